@@ -39,6 +39,7 @@ type Found struct {
 
 type Summary struct {
 	Runs         int            `json:"runs"`
+	Evals        int64          `json:"evals"`
 	Steps        int64          `json:"steps"`
 	SimNanos     int64          `json:"sim_nanos"`
 	Probes       map[string]int `json:"probes"`
@@ -131,6 +132,7 @@ func TestWorker(t *testing.T) {
 			sum.Runs++
 			sum.LastIndex = i
 			sum.Steps += int64(res.Steps)
+			sum.Evals += int64(res.Evals)
 			sum.SimNanos += res.SimNanos
 			for k, v := range res.Probes {
 				sum.Probes[k] += v
